@@ -95,13 +95,14 @@ def make_target(t):
     pl = param_list(t['sig'])
     if t['kind'] == 'func':
         src = 'def stub(%s):\n    EVALS.append(1)\n    return 0\n' % pl
-        ns = {'EVALS': EVALS}
+        # a module-level function like any other: successive targets re-define `stub` in the same module
+        ns = {'EVALS': EVALS, '__name__': 'harness_valid_stubs'}
         exec(src, ns)
         base = ns['stub']
     else:
         name = 'meth' if t['kind'] == 'method' else '__call__'
         src = 'class Stub(object):\n    def %s(self%s):\n        EVALS.append(1)\n        return 0\n' % (name, (', ' + pl) if pl else '')
-        ns = {'EVALS': EVALS}
+        ns = {'EVALS': EVALS, '__name__': 'harness_valid_stubs'}
         exec(src, ns)
         inst = ns['Stub']()
         base = inst.meth if t['kind'] == 'method' else inst
